@@ -1,287 +1,4 @@
-import Nv.OracleIO
-import Nv.Model.C13
-import Nv.Gen.C12
-import Nv.Gen.C13
-/-!
-oracle_c13 — line protocol (one queue per script; the first line creates it). Every line is one *event*: an atomic
-step of the transition system followed by resuming woken consumers until nobody is woken (quiescence).
-  `new q|async|mux <cap>` | `new mq <ctrlCap> <reqCap>` | `new syncq` | `new priq <cap>` → `ok`
-  list queues: `pop` `popany` (a NEW blocking consumer) → `ret:<r>` | `parked`
-               `waitclose` (mux, mq) `waitclear` (mq): a NEW caller blocked in WaitClose/WaitClear → `ret:ok` | `parked`
-               `add x` `prior x` `addc x` `priorc x` `close` `tryclose` `tryclear` `trypop` → `<result>`
-               `atomic <ev> ; <ev> …` (ev ∈ add/prior/addc/priorc/close/tryclose): a burst of producer events → `<r1>;<r2>…`
-  priq:        `push x p` `pop` `len` → `<result>`;  `recv` → `got` | `empty`;  `waitlen` → `0` | `1`;
-               `consume` (a NEW consumer: receive from WaitCh, then Pop) → `ret:<r>` | `parked`
-every answer is followed by ` ret=[<sorted results of the OTHER consumers that returned during the event>] parked=<n>`.
-Scheduling is never decided by the oracle: for every line it explores ALL runs of the transition system — every choice
-a Signal has, every order in which woken consumers resume, and for a burst every placement of those resumes before,
-between and after its events — and answers with the single outcome or the set `{a|b|…}` of outcomes; it carries the
-set of states those runs can end in to the next line. Consumers are anonymous (counts per call kind).
-Configuration: `Nv.Gen.C13.cfg` (wake primitives) and `Nv.Gen.C12.cfg` (shapes), both regenerated from the source.
--/
-open Nv Nv.C12 Nv.C13
-
-/-- oracle state of a list queue with anonymous consumers: the queue and how many Pop / PopAnyway consumers are parked
-    or woken (thread identities are not observable) -/
-structure AS where
-  q : LQ
-  pp : Nat      -- parked in Pop
-  pa : Nat      -- parked in PopAnyway
-  wp : Nat      -- woken, called Pop
-  wa : Nat      -- woken, called PopAnyway
-  wc : Nat      -- callers blocked in WaitClose (released when `stopChan` is closed, i.e. when the queue is closed)
-  wl : Nat      -- callers blocked in WaitClear (MQ; released when the queue is cleared)
-deriving DecidableEq
-
-inductive St
-  | none
-  | lq (P : Par) (ss : List AS)        -- the SET of states the transition system allows after the lines so far
-  | pq (s : PS) (waiters : Nat)
-
-def showOut : Out → String
-  | .ok => "ok" | .closed => "closed" | .full => "full" | .ctrlFull => "ctrl-full"
-  | .val x => s!"v:{x}" | .nil => "nil" | .none => "none" | .wouldBlock => "would-block"
-  | .bool b => if b then "true" else "false" | .num n => s!"{n}" | .badOp => "bad-op"
-  | .spun _ _ => "spun"
-
-def insertS (x : String) : List String → List String
-  | [] => [x]
-  | y :: r => if x < y then x :: y :: r else y :: insertS x r
-def sortS (l : List String) : List String := l.foldr insertS []
-
-def suffix (rets : List String) (parked : Nat) : String :=
-  " ret=[" ++ ",".intercalate (sortS rets) ++ "] parked=" ++ toString parked
-
-def parseKind (s : String) : Option Kind :=
-  if s == "q" then some .q else if s == "async" then some .async else if s == "mux" then some .mux else none
-
-def mkPar (k : Kind) : Par := ⟨k, Nv.Gen.C12.cfg.shape k, Nv.Gen.C12.cfg.syncq, Nv.Gen.C13.cfg.wake k⟩
-
-/-- a concrete LTS state for an anonymous one: parked threads 1…, woken threads 1001…, nothing done yet -/
-def concretize (a : AS) : CS :=
-  ⟨a.q,
-   (List.range a.pp).map (fun i => (i + 1, false)) ++ (List.range a.pa).map (fun i => (a.pp + i + 1, true)),
-   (List.range a.wp).map (fun i => (1001 + i, false)) ++ (List.range a.wa).map (fun i => (1001 + a.wp + i, true)),
-   [], []⟩
-
-def countKind (k : Bool) (l : List (Tid × Bool)) : Nat := (l.filter (fun e => e.2 == k)).length
-
-def abstractS (s : CS) (wc wl : Nat) : AS :=
-  ⟨s.q, countKind false s.parked, countKind true s.parked, countKind false s.woken, countKind true s.woken, wc, wl⟩
-
-def firstOfKind (k : Bool) (l : List (Tid × Bool)) : Option Tid := (l.find? (fun e => e.2 == k)).map (·.1)
-
-/-- a producer-side event: its LTS action (Signal's choice `w` given) and its result text -/
-def producer (P : Par) (s : CS) (w : Tid) (ws : List String) : Option (Act × String) :=
-  match ws with
-  | ["add", x] => (parseNat? x).map fun x =>
-      (.add x w, if P.kind == .syncq then "ok" else showOut (addReq P.sh s.q x).2)
-  | ["prior", x] => (parseNat? x).map fun x => (.prior x w, showOut (addPrior P.sh s.q x).2)
-  | ["addc", x] => (parseNat? x).map fun x => (.addCtrl x w, showOut (addCtrl P.sh s.q x).2)
-  | ["priorc", x] => (parseNat? x).map fun x => (.priorCtrl x w, showOut (addPriorCtrl P.sh s.q x).2)
-  | ["close"] => some (.close w, "ok")
-  | ["tryclose"] => some (.tryClose w, showOut (tryClose s.q).2)
-  | ["tryclear"] => some (.tryClear, showOut (tryClear s.q).2)
-  | ["trypop"] => some (.tryPop, showOut (syncTryPop P.ssh s.q).2)
-  | _ => none
-
-def splitSemi : List String → List String → List (List String)
-  | [], cur => [cur.reverse]
-  | w :: r, cur => if w == ";" then cur.reverse :: splitSemi r [] else splitSemi r (w :: cur)
-
-def burstEv (ws : List String) : Bool :=
-  match ws with
-  | op :: _ => op == "add" || op == "prior" || op == "addc" || op == "priorc" || op == "close" || op == "tryclose"
-  | [] => false
-
-/-- are all events of the line well formed and enabled for this queue type? (does not depend on the state) -/
-def eventsOk (P : Par) (atomic : Bool) : List (List String) → CS → Bool
-  | [], _ => true
-  | ev :: r, s =>
-    (!atomic || burstEv ev) &&
-    match producer P s 0 ev with
-    | none => false
-    | some (a, _) => match Nv.C13.step P { s with parked := [] } a with
-      | none => false
-      | some s' => eventsOk P atomic r s'
-
-/-- a point of the exploration of one line: anonymous state, events still to come, results so far (reversed), results
-    of the consumers that returned so far -/
-structure Cfg1 where
-  a : AS
-  evs : List (List String)
-  res : List String
-  rets : List String
-deriving DecidableEq
-
-def addNew (x : Cfg1) (l : List Cfg1) : List Cfg1 := if l.contains x then l else x :: l
-
-/-- successors of a point: the next event (with every choice a Signal has), or the resume of a woken consumer of
-    either kind — i.e. woken consumers may run before, between and after the events of a burst -/
-def expand (P : Par) (c : Cfg1) : List Cfg1 :=
-  let s := concretize c.a
-  let evSucc : List Cfg1 :=
-    match c.evs with
-    | [] => []
-    | ev :: r =>
-      let ws : List Tid := match firstOfKind false s.parked, firstOfKind true s.parked with
-        | some t1, some t2 => [t1, t2]
-        | some t1, none => [t1]
-        | none, some t2 => [t2]
-        | none, none => [0]
-      ws.filterMap fun w =>
-        match producer P s w ev with
-        | none => none
-        | some (act, r1) => match Nv.C13.step P s act with
-          | none => none
-          | some s' => some ⟨abstractS s' c.a.wc c.a.wl, r, r1 :: c.res, sortS (c.rets ++ s'.done.map (fun d => showOut d.2))⟩
-  let rsSucc : List Cfg1 :=
-    ([firstOfKind false s.woken, firstOfKind true s.woken].filterMap id).filterMap fun t =>
-      match Nv.C13.step P s (.resume t) with
-      | none => none
-      | some s' => some ⟨abstractS s' c.a.wc c.a.wl, c.evs, c.res, sortS (c.rets ++ s'.done.map (fun d => showOut d.2))⟩
-  evSucc ++ rsSucc
-
-def isTerminal (c : Cfg1) : Bool := c.evs.isEmpty && c.a.wp == 0 && c.a.wa == 0
-
-/-- breadth-first exploration with de-duplication; every step consumes an event or a woken consumer, so it ends -/
-def explore (P : Par) : Nat → List Cfg1 → List Cfg1 → List Cfg1
-  | 0, _, done => done
-  | n + 1, frontier, done =>
-    match frontier with
-    | [] => done
-    | _ =>
-      let term := frontier.filter isTerminal
-      let rest := frontier.filter (fun c => !isTerminal c)
-      let next := (rest.flatMap (expand P)).foldr addNew []
-      explore P n next (term.foldr addNew done)
-
-/-- at the end of a line: WaitClose callers return once the queue is closed, WaitClear callers once it is cleared
-    (the channels are closed in the same critical sections that set the flags — a regenerated fact) -/
-def release (c : Cfg1) : Cfg1 :=
-  let c1 := if c.a.q.closed && c.a.wc > 0 then
-      { c with a := { c.a with wc := 0 }, rets := sortS (c.rets ++ List.replicate c.a.wc "ok") } else c
-  if c1.a.q.cleared && c1.a.wl > 0 then
-    { c1 with a := { c1.a with wl := 0 }, rets := sortS (c1.rets ++ List.replicate c1.a.wl "ok") } else c1
-
-def outOf (c : Cfg1) : String := ";".intercalate c.res.reverse ++ suffix c.rets (c.a.pp + c.a.pa + c.a.wc + c.a.wl)
-
-def dedupS (l : List String) : List String := l.foldr (fun x acc => if acc.contains x then acc else x :: acc) []
-def dedupA (l : List AS) : List AS := l.foldr (fun x acc => if acc.contains x then acc else x :: acc) []
-
-/-- one answer line: a single outcome, or the set `{a|b|…}` of outcomes the transition system allows -/
-def showSet (outs : List String) : String :=
-  match sortS (dedupS outs) with
-  | [o] => o
-  | os => "{" ++ "|".intercalate os ++ "}"
-
-def lqLine (P : Par) (ss : List AS) (ws : List String) : St × String :=
-  match ws with
-  | ["pop"] | ["popany"] =>
-    let anyway := ws == ["popany"]
-    if anyway && P.kind == .syncq then (.lq P ss, "bad-op") else
-    let rs := ss.map fun a =>
-      let s := concretize a
-      match Nv.C13.step P s (.popCall 999 anyway) with
-      | none => (a, "bad-op")
-      | some s1 =>
-        let r := match s1.done with
-          | (_, o) :: _ => "ret:" ++ showOut o
-          | [] => "parked"
-        (abstractS s1 a.wc a.wl, r ++ suffix [] (s1.parked.length + a.wc + a.wl))
-    (.lq P (dedupA (rs.map (·.1))), showSet (rs.map (·.2)))
-  | ["waitclose"] | ["waitclear"] =>
-    let clear := ws == ["waitclear"]
-    if (clear && P.kind != .mq) || (!clear && P.kind != .mq && P.kind != .mux) then (.lq P ss, "bad-op") else
-    let rs := ss.map fun a =>
-      let done := if clear then a.q.cleared else a.q.closed
-      if done then (a, "ret:ok" ++ suffix [] (a.pp + a.pa + a.wc + a.wl))
-      else
-        let a' := if clear then { a with wl := a.wl + 1 } else { a with wc := a.wc + 1 }
-        (a', "parked" ++ suffix [] (a'.pp + a'.pa + a'.wc + a'.wl))
-    (.lq P (dedupA (rs.map (·.1))), showSet (rs.map (·.2)))
-  | _ =>
-    let atomic := ws.head? == some "atomic"
-    let evs := if atomic then splitSemi (ws.drop 1) [] else [ws]
-    match ss with
-    | [] => (.lq P ss, "bad-op")
-    | a0 :: _ =>
-      if !eventsOk P atomic evs (concretize a0) then (.lq P ss, "bad-op") else
-      let finals := (explore P 400 (ss.map fun a => ⟨a, evs, [], []⟩) []).map release
-      (.lq P (dedupA (finals.map (·.a))), showSet (finals.map outOf))
-
-/-! priq -/
-
-def popMacro (sh : PriShape) (pc : PriCfg) (s : PS) (holder : Bool) : PS × String :=
-  match pstepC sh pc s (.popLock holder) with
-  | none => (s, "bad-op")
-  | some s1 =>
-    let r := match (pqPop sh s.q).2 with
-      | some m => s!"v:{m.item}"
-      | none => "nil"
-    match pstepC sh pc s1 .popSignal with
-    | some s2 => (s2, r)
-    | none => (s1, r)
-
-/-- parked consumers proceed while the channel is readable: receive, Pop, re-signal -/
-def serve (sh : PriShape) (pc : PriCfg) : Nat → PS → Nat → List String → PS × Nat × List String
-  | 0, s, w, acc => (s, w, acc)
-  | n + 1, s, w, acc =>
-    if w = 0 then (s, w, acc) else
-    match pstepC sh pc s .recv with
-    | none => (s, w, acc)
-    | some s1 =>
-      let r := popMacro sh pc s1 true
-      serve sh pc n r.1 (w - 1) (r.2 :: acc)
-
-def pqFinish (sh : PriShape) (pc : PriCfg) (s : PS) (w : Nat) (res : String) : St × String :=
-  let r := serve sh pc w s w []
-  (.pq r.1 r.2.1, res ++ suffix r.2.2 r.2.1)
-
-def pqLine (s : PS) (w : Nat) (ws : List String) : St × String :=
-  let sh := Nv.Gen.C12.cfg.priq
-  let pc := Nv.Gen.C13.cfg.priq
-  match ws with
-  | ["push", x, p] => match parseNat? x, parseInt? p with
-    | some x, some p =>
-      match pstepC sh pc s (.pushLock x p) with
-      | none => (.pq s w, "bad-op")
-      | some s1 =>
-        let res := showOut (pqPush sh s.q x p).2
-        let s2 := match pstepC sh pc s1 .pushSignal with | some s2 => s2 | none => s1
-        pqFinish sh pc s2 w res
-    | _, _ => (.pq s w, "bad-op")
-  | ["pop"] =>
-    let r := popMacro sh pc s (decide (0 < s.holders))
-    pqFinish sh pc r.1 w r.2
-  | ["recv"] => match pstepC sh pc s .recv with
-    | some s1 => pqFinish sh pc s1 w "got"
-    | none => pqFinish sh pc s w "empty"
-  | ["waitlen"] => pqFinish sh pc s w (if s.token then "1" else "0")
-  | ["len"] => pqFinish sh pc s w (toString s.q.entries.length)
-  | ["consume"] => match pstepC sh pc s .recv with
-    | some s1 =>
-      let r := popMacro sh pc s1 true
-      pqFinish sh pc r.1 w ("ret:" ++ r.2)
-    | none => (.pq s (w + 1), "parked" ++ suffix [] (w + 1))
-  | _ => (.pq s w, "bad-op")
-
-def step (st : St) (line : String) : St × String :=
-  match words line with
-  | ["new", "mq", a, b] => match parseInt? a, parseInt? b with
-    | some a, some b => (.lq (mkPar .mq) [⟨LQ.new .mq a b, 0, 0, 0, 0, 0, 0⟩], "ok")
-    | _, _ => (.none, "bad-op")
-  | ["new", "syncq"] => (.lq (mkPar .syncq) [⟨LQ.new .syncq 0 0, 0, 0, 0, 0, 0, 0⟩], "ok")
-  | ["new", "priq", a] => match parseInt? a with
-    | some a => (.pq (PS.init a) 0, "ok")
-    | none => (.none, "bad-op")
-  | ["new", k, a] => match parseKind k, parseInt? a with
-    | some k, some a => (.lq (mkPar k) [⟨LQ.new k 0 a, 0, 0, 0, 0, 0, 0⟩], "ok")
-    | _, _ => (.none, "bad-op")
-  | "new" :: _ => (.none, "bad-op")
-  | ws => match st with
-    | .none => (st, "bad-op")
-    | .lq P ss => lqLine P ss ws
-    | .pq s w => pqLine s w ws
-
-def main : IO Unit := oracleMain step St.none
+import Oracle.C13Lib
+/-! oracle_c13 — the line protocol and the exploration are in `Oracle/C13Lib.lean` (shared with oracle_c12, which runs the same
+transition system for its concurrency scripts). -/
+def main : IO Unit := Nv.oracleMain C13O.step C13O.St.none
